@@ -46,6 +46,11 @@ fn make_target(n: usize) -> Target {
         let a = p.pattern(pages as usize, "hole", prot);
         x.push((a, pages, prot));
     }
+    // a code region BELOW the main executable (JIT / MAP_32BIT style): the writer moves the entry
+    // module to the front of its mapping list, so the list it searches is not sorted by address
+    if let Ok(r) = p.cmd("pattern_at 0x20000000 2 rx") {
+        x.push((u64::from_str_radix(r[0].trim_start_matches("0x"), 16).unwrap_or(0), 2, "rx"));
+    }
     p.quiesce();
     let maps = mdv_core::mapsref::parse_maps(&p.maps_text()).unwrap_or_default();
     let main_sp_hi = maps.iter().find(|l| l.name.as_deref() == Some(b"[stack]")).map(|l| l.end).unwrap_or(0);
@@ -100,6 +105,11 @@ pub fn run_case(t: &mut Target, c: &Case) -> (Vec<(String, String)>, bool) {
     let regions: Vec<(u64, u64)> = c.app.iter().map(|a| resolve(t, *a)).collect();
     o.app_memory = regions.iter().map(|(a, l)| (*a as usize, *l as usize)).collect();
     let mut window: Option<(u64, u64)> = None;
+    if let Some((mi, _)) = c.ip {
+        if mi >= t.x.len() {
+            return (fails, false); // the fixed low address was not available in this target
+        }
+    }
     if let Some((mi, off)) = c.ip {
         let (ms, pages, _) = t.x[mi];
         let me = ms + pages * PAGE;
@@ -224,8 +234,8 @@ fn cases_for(n: usize, thorough: bool) -> Vec<Case> {
         }
     }
     // crash instruction pointer around mapping edges
-    for mi in 0..4usize {
-        let size = if mi == 1 { 3 * 4096i64 } else { 4096 };
+    for mi in 0..5usize {
+        let size = if mi == 1 { 3 * 4096i64 } else if mi == 4 { 2 * 4096 } else { 4096 };
         for off in [0i64, 1, 127, 128, 129, size / 2, size - 129, size - 128, size - 127, size - 1, size, -1] {
             v.push(Case { n, app: vec![], ip: Some((mi, off)), limit: false, strategy: 0 });
             if off == 127 {
@@ -237,7 +247,7 @@ fn cases_for(n: usize, thorough: bool) -> Vec<Case> {
 }
 
 pub fn run(ctx: &Ctx, rep: &mut Report) {
-    rep.rule = "application regions: each under the default vectored read and (subset quick / all thorough) forced onto /proc/<pid>/mem and word-by-word ptrace through wildcard libc plans; {1 region: 4 placements x alignment 0..7 x 9 lengths; 2-3 regions: duplicate / overlapping / adjacent / across both regions} and crash instruction pointers at 12 offsets around the edges of four mappings (1 page r-x, 3 pages r-x, --x, ---p), for thread counts {1, 3, 24 (with spin threads at chosen stack-pointer offsets and a size limit)}; nontrivial = successful dumps with at least one app region or an ip window".into();
+    rep.rule = "application regions: each under the default vectored read and (subset quick / all thorough) forced onto /proc/<pid>/mem and word-by-word ptrace through wildcard libc plans; {1 region: 4 placements x alignment 0..7 x 9 lengths; 2-3 regions: duplicate / overlapping / adjacent / across both regions} and crash instruction pointers at 12 offsets around the edges of five mappings (1 page r-x, 3 pages r-x, --x, ---p, 2 pages r-x at 0x20000000 below the executable), for thread counts {1, 3, 24 (with spin threads at chosen stack-pointer offsets and a size limit)}; nontrivial = successful dumps with at least one app region or an ip window".into();
     if let Some(case) = &ctx.replay {
         let Some(c) = Case::from_json(case) else {
             rep.machinery("bad replay".into());
